@@ -139,7 +139,7 @@ def check(ctx):
             ctx.ob("handler", "%s sets in_mesh = %s" % (variant, val), a == (1, 1) and b == (0, 0), want[0].loc() if want else _loc(ob),
                    "on the Enabled/%s arm: writes of %s %s, writes of the opposite value %s" % (variant, val, a, b))
     for s in ws:
-        ctx.guarded("handler", "in_mesh written only for an Enabled handler", s, lambda c, r, l: l == "Enabled" and r == "discr(self)", "match self { Enabled(..) }")
+        gs.guarded(ctx, "handler", "in_mesh written only for an Enabled handler", s, lambda c, r, l: l == "Enabled" and r == "discr(self)", "match self { Enabled(..) }")
     who = sorted({b.npath for b in prog.bodies(G) if b.field_write_sites(FLAG, r"handler::EnabledHandler")})
     ctx.ob("handler", "only on_behaviour_event writes in_mesh", who == [ob.npath], msg=str(who))
     inits = []
@@ -230,7 +230,7 @@ def check(ctx):
     ctx.ob("notify", "LeftMesh built only by peer_removed_from_mesh", whol == [pr.npath], msg=str(whol))
     oc = ctx.body(G, gs.BEH + r"on_connection_closed$")
     for s in _event_pushes(oc, "JoinedMesh"):
-        ctx.guarded("notify", "hand-over JoinedMesh only for a mesh member", s,
+        gs.guarded(ctx, "notify", "hand-over JoinedMesh only for a mesh member", s,
                     lambda c, r, l: l == "true" and c[0] == "call" and re.search(r"BTreeSet::contains$", strip_generics(c[1])) is not None and "HashMap::get(self.mesh, " in render(c[2][0]),
                     "mesh.get(topic).contains(peer_id)")
         r = gs.xrender(oc, oc.site_expr(s)[2][1])
